@@ -259,46 +259,62 @@ def applyRenderer (m : FlowMsg) (fieldName : String) (r : String) (v : FV) : Ren
            else if m.proto = 58 then lookupName Goflow.Generated.icmp6TypeName m.icmpType else str "unknown")
   else nilRenderer v
 
+/-- the name printed for a configured field: the rename when there is a non-empty one -/
+def finalNameOf (f : Fmt) (s : String) : Bytes :=
+  match f.rename.lookup s with
+  | some r => if r.isEmpty then str s else r
+  | none => str s
+
+/-- the struct field (or declared / virtual name) a configured field stands for -/
+def fieldNameOf (f : Fmt) (s : String) : String :=
+  match f.reMap.lookup s with
+  | some go => if go ≠ "" then go else s
+  | none => s
+
+def rendererOf (f : Fmt) (s : String) : String × Bool :=
+  match f.render.lookup (fieldNameOf f s) with
+  | some r => (r, true)
+  | none => ("NilRenderer", false)
+
+/-- the value printed for a configured field: the struct field, else the custom field carried in the
+    unknown section, else (virtual columns only) the invalid value handed to the renderer -/
+def valueOf (f : Fmt) (m : FlowMsg) (unk : List (String × FV)) (s : String) : Option FV :=
+  match fieldValue m (fieldNameOf f s) with
+  | .invalid => (match unk.lookup s with
+      | some u => some u
+      | none => if (rendererOf f s).2 ∧ (f.reMap.lookup s).isNone then some .invalid else none)   -- virtual columns only
+  | v => some v
+
+def quoteIf (json : Bool) (quotes : Bytes) (r : Rendered) : Option Bytes :=
+  match r with
+  | .text b => some (if json then jsonQuote b else quotes ++ b ++ quotes)
+  | .bare b => some b
+  | .nil => none
+
+/-- the elements of an array value, each rendered; a separator follows every rendered element but the last -/
+def sliceBody (f : Fmt) (m : FlowMsg) (json : Bool) (quotes : Bytes) (s : String) (elems : List FV) : Bytes :=
+  let n := elems.length
+  (elems.zipIdx.map fun (e, i) =>
+    match quoteIf json quotes (applyRenderer m (fieldNameOf f s) (rendererOf f s).1 e) with
+    | some b => b ++ (if i + 1 < n then str "," else [])
+    | none => []).flatten
+
+/-- one `name sign value` item, or nothing when the field is skipped -/
+def itemOf (f : Fmt) (m : FlowMsg) (unk : List (String × FV)) (json : Bool) (quotes sign : Bytes) (s : String) : Option Bytes :=
+  match valueOf f m unk s with
+  | none => none
+  | some v =>
+    if (f.isSlice.lookup (fieldNameOf f s)).getD false then
+      let elems : List FV := match v with | .list l => l | _ => []
+      some (quotes ++ finalNameOf f s ++ quotes ++ sign ++ str "[" ++ sliceBody f m json quotes s elems ++ str "]")
+    else
+      match quoteIf json quotes (applyRenderer m (fieldNameOf f s) (rendererOf f s).1 v) with
+      | none => none
+      | some b => some (quotes ++ finalNameOf f s ++ quotes ++ sign ++ b)
+
 /-- FormatMessageReflectCustom(ext, quotes, sep, sign, null): the list of `name sign value` items -/
 def formatItems (f : Fmt) (m : FlowMsg) (json : Bool) (quotes sign : Bytes) : List Bytes :=
-  let unk := mapUnknown f m.unk
-  f.fields.filterMap fun s =>
-    let finalName : Bytes := match f.rename.lookup s with
-      | some r => if r.isEmpty then str s else r
-      | none => str s
-    let fieldName := match f.reMap.lookup s with
-      | some go => if go ≠ "" then go else s
-      | none => s
-    let (renderer, okRenderer) := match f.render.lookup fieldName with
-      | some r => (r, true)
-      | none => ("NilRenderer", false)
-    let v0 := fieldValue m fieldName
-    let value? : Option FV := match v0 with
-      | .invalid => (match unk.lookup s with
-          | some u => some u
-          | none => if okRenderer ∧ (f.reMap.lookup s).isNone then some .invalid else none)   -- virtual columns only
-      | v => some v
-    match value? with
-    | none => none
-    | some v =>
-      let isSlice := (f.isSlice.lookup fieldName).getD false
-      let quoteIf (r : Rendered) : Option Bytes := match r with
-        | .text b => some (if json then jsonQuote b else quotes ++ b ++ quotes)
-        | .bare b => some b
-        | .nil => none
-      if isSlice then
-        let elems : List FV := match v with | .list l => l | _ => []
-        -- each element rendered; a separator follows every rendered element but the last
-        let n := elems.length
-        let body := (elems.zipIdx.map fun (e, i) =>
-          match quoteIf (applyRenderer m fieldName renderer e) with
-          | some b => b ++ (if i + 1 < n then str "," else [])
-          | none => []).flatten
-        some (quotes ++ finalName ++ quotes ++ sign ++ str "[" ++ body ++ str "]")
-      else
-        match quoteIf (applyRenderer m fieldName renderer v) with
-        | none => none
-        | some b => some (quotes ++ finalName ++ quotes ++ sign ++ b)
+  f.fields.filterMap (itemOf f m (mapUnknown f m.unk) json quotes sign)
 
 def formatJSON (f : Fmt) (m : FlowMsg) : Bytes :=
   str "{" ++ ((formatItems f m true (str "\"") (str ":")).intersperse (str ",")).flatten ++ str "}"
